@@ -202,8 +202,9 @@ def snapshot(cpu, with_mem=True):
         elif isinstance(v, AbstractRegister):
             out[k] = v.value
         elif isinstance(v, dict):
-            for kk, vv in v.items():
-                out['R.' + kk.name] = vv
+            if k == '_R':                    # the core register file; other dictionaries (look-up tables, caches a refactor adds) are not state of their own
+                for kk, vv in v.items():
+                    out['R.' + kk.name] = vv
         elif isinstance(v, list):
             for i, e in enumerate(v):
                 out['%s[%d]' % (k, i)] = e.value if isinstance(e, AbstractRegister) else e
